@@ -11,6 +11,8 @@ import time
 CHECKS = {
     "C01": "mc.checks.tablefam",
     "C02": "mc.checks.tablefam",
+    "C03": "mc.checks.c03",
+    "C04": "mc.checks.c03",
     "C05": "mc.checks.c05",
     "C07": "mc.checks.tablefam",
     "C08": "mc.checks.c08",
